@@ -6,7 +6,7 @@
 (*   C07  shape predicates of Shape.tla hold in every reachable state and the *)
 (*        comparator calls of every Get / Put / Remove respect the bound      *)
 (*   C15  cached size = number of nodes (Size(T) is the node count here)      *)
-EXTENDS RBT, AbsMap, Shape
+EXTENDS RBT, AbsMap, Shape, Json
 cfgT == [sorted |-> TRUE, cmp |-> "nat", linked |-> FALSE, bidi |-> FALSE, vsorted |-> FALSE, vcmp |-> "nat"]
 E(t) == InOrder(t, t.root)
 Refines ==
@@ -32,4 +32,7 @@ Flat(t) == LET ord == Pre(t, t.root)
            IN [i \in DOMAIN ord |-> <<t.n[ord[i]].key, ix(Left(t, ord[i])), ix(Right(t, ord[i])), ix(Parent(t, ord[i]))>>]
 ShapeInv == RBShapeOK(Flat(T), Size(T))
 WorkBound == [][ last'.op \in {"Get", "Put", "Remove"} => WorkOK("rb", 0, last'.n, last'.cmps) ]_vars
+RECURSIVE CanonK(_, _)
+CanonK(t, x) == IF x = Nil THEN <<>> ELSE <<t.n[x].key, t.n[x].color, CanonK(t, Left(t, x)), CanonK(t, Right(t, x))>>
+Fid == PrintT("S|" \o ToJson(CanonK(T, T.root)))      \* fidelity dump (always TRUE)
 =============================================================================
